@@ -26,3 +26,90 @@ theorem parities_deterministic (c : Circuit) (b1 b2 : List Bool) (h : b1 = b2) :
   rw [h]
 
 end Stim.C04
+
+/-! ### Detection events are GF(2)-linear in the measurement record
+
+`m2d` of a sample is compared through `m2d(sample) ⊕ m2d(reference) = parities(sample ⊕ reference)`; this is that identity. -/
+namespace Stim.C04
+open Stim
+
+def xv (a b : List Bool) : List Bool := List.zipWith (· != ·) a b
+
+theorem xv_getD : ∀ (a b : List Bool) (i : Nat), a.length = b.length →
+    (xv a b).getD i false = (a.getD i false != b.getD i false)
+  | [], [], i, _ => by simp [xv]
+  | [], _ :: _, _, h => by simp at h
+  | _ :: _, [], _, h => by simp at h
+  | x :: xs, y :: ys, 0, _ => by simp [xv]
+  | x :: xs, y :: ys, i+1, h => by
+    have := xv_getD xs ys i (by simpa using h)
+    simpa [xv] using this
+
+theorem xv_append_single (da db : List Bool) (pa pb : Bool) (h : da.length = db.length) :
+    xv (da ++ [pa]) (db ++ [pb]) = xv da db ++ [pa != pb] := by
+  unfold xv
+  rw [List.zipWith_append h]
+  simp
+
+theorem fold_lin (ts : List Target) (la lb lab : Target → Bool) (h : ∀ t, lab t = (la t != lb t)) :
+    ∀ (xa xb : Bool),
+      ts.foldl (fun acc t => if t.isRec then acc != lab t else acc) (xa != xb)
+        = (ts.foldl (fun acc t => if t.isRec then acc != la t else acc) xa != ts.foldl (fun acc t => if t.isRec then acc != lb t else acc) xb) := by
+  induction ts with
+  | nil => intro xa xb; simp
+  | cons t ts ih =>
+    intro xa xb
+    simp only [List.foldl_cons]
+    by_cases hr : t.isRec = true
+    · simp only [hr, if_true]
+      rw [h t]
+      have : ((xa != xb) != (la t != lb t)) = ((xa != la t) != (xb != lb t)) := by
+        cases xa <;> cases xb <;> cases la t <;> cases lb t <;> rfl
+      rw [this]
+      exact ih _ _
+    · have hr' : t.isRec = false := by simpa using hr
+      simp only [hr', Bool.false_eq_true, if_false]
+      exact ih _ _
+
+/-- the detector part of `paritiesGo` is linear in (record, accumulated detectors), whatever the observable accumulators are -/
+theorem paritiesGo_linear : ∀ (ops : List Op) (k : Nat) (a b da db : List Bool)
+    (o1 o2 o3 : List (Nat × Bool)) (p1 p2 p3 : List Nat),
+    a.length = b.length → da.length = db.length →
+    (paritiesGo ops k (xv a b) (xv da db) o1 p1).1 = xv (paritiesGo ops k a da o2 p2).1 (paritiesGo ops k b db o3 p3).1
+  | [], _, _, _, _, _, _, _, _, _, _, _, _, _ => by simp [paritiesGo]
+  | .rep _ _ _ :: os, k, a, b, da, db, o1, o2, o3, p1, p2, p3, h, hd => by
+    simp only [paritiesGo]
+    exact paritiesGo_linear os k a b da db o1 o2 o3 p1 p2 p3 h hd
+  | .instr g tag args ts :: os, k, a, b, da, db, o1, o2, o3, p1, p2, p3, h, hd => by
+    simp only [paritiesGo]
+    split
+    · -- DETECTOR
+      have hlook : ∀ t : Target,
+          (if t.value == 0 || t.value > k then false else (xv a b).getD (k - t.value) false)
+            = ((if t.value == 0 || t.value > k then false else a.getD (k - t.value) false)
+               != (if t.value == 0 || t.value > k then false else b.getD (k - t.value) false)) := by
+        intro t
+        split
+        · rfl
+        · exact xv_getD a b _ h
+      have hfold := fold_lin ts _ _ _ hlook false false
+      simp only [show (false != false) = false by rfl] at hfold
+      rw [hfold, ← xv_append_single da db _ _ hd]
+      exact paritiesGo_linear os k a b _ _ o1 o2 o3 p1 p2 p3 h (by simp [hd])
+    · split
+      · exact paritiesGo_linear os k a b da db _ _ _ _ _ _ h hd
+      · exact paritiesGo_linear os _ a b da db o1 o2 o3 p1 p2 p3 h hd
+
+/-- **Detection events of the XOR of two records are the XOR of their detection events.** -/
+theorem detectors_linear (c : Circuit) (a b : List Bool) (h : a.length = b.length) :
+    (parities c (xv a b)).1 = xv (parities c a).1 (parities c b).1 := by
+  unfold parities
+  have := paritiesGo_linear c.unroll 0 a b [] [] [] [] [] [] [] [] h rfl
+  simpa [xv] using this
+
+example :
+    let c : Circuit := [.instr "M" "" [] [⟨0⟩, ⟨1⟩, ⟨2⟩], .instr "DETECTOR" "" [] [⟨2^28 + 1⟩, ⟨2^28 + 3⟩], .instr "DETECTOR" "" [] [⟨2^28 + 2⟩]]
+    (parities c (xv [true, false, true] [true, true, false])).1 = xv (parities c [true, false, true]).1 (parities c [true, true, false]).1 :=
+  detectors_linear _ _ _ rfl
+
+end Stim.C04
